@@ -1,14 +1,59 @@
 # Table consumed by bin/mkmanifest. Edit here, then run bin/mkmanifest.
 HOOK_COMMITS = []
 NOTES = (
-    "All checks: bin/check <ID> --tier quick|thorough. exit 0 = proved within bounds (KNOWN-FINDING lines for entries of "
-    "known_findings.json), exit 1 = solver counterexample reproduced natively (VIOLATION line), exit 2 = inconclusive "
-    "(timeout / memory / vacuous cover / non-reproducing counterexample / build failure) - never reported as a pass."
+    "All checks: bin/check <ID> --tier quick|thorough. exit 0 = every harness decided and proved within its bounds "
+    "(KNOWN-FINDING lines for open entries of known_findings.json), exit 1 = solver counterexample reproduced natively "
+    "(VIOLATION line), exit 2 = inconclusive (timeout / memory / unsatisfied vacuity cover / counterexample that does not "
+    "reproduce / build failure) - never reported as a pass. No source hooks were needed: every harness reaches the code "
+    "through public items; /repo carries five small 'fix:' commits for defects the checks found (see known_findings.json, "
+    "status fixed). Harness bounds, symbolic inputs and what is outside each claim are listed per harness in the evidence files "
+    "and in DESIGN.md section 8."
 )
 
+claim("C01", "13 shape types: constructor -> write_to -> typed and generic read_from, every coordinate a symbolic f64 (all bit patterns; X/Y non-NaN), "
+      "on a grid of concrete part/point counts; plus framing through the real ShapeWriter/ShapeReader for 1-3 records over the reading routes "
+      "{typed, generic} x {iterate, read_nth} x {with, without .shx}. One SAT query per cell covers all coordinate values of that cell.",
+      "Outside: counts beyond the grid; on-disk routes; generic (Shape) iteration of multi-vertex records (Kani 0.68 mis-models moving an enum with Vec payload out of a Result; "
+      "their generic decode is checked at Shape::read_from by reference).")
+claim("C02", "Real ShapeWriter output for 0-3 shapes of each of the 13 types (symbolic coordinates) is walked and decoded by an independent, strict codec "
+      "(kani/src/refcodec.rs: no byteorder, no shapefile types) and compared field by field with what was handed to the writer.",
+      "Outside: counts beyond the grid.")
+claim("C04", "Real ShapeWriter::with_shx for n in 0..3 records of different sizes: the .shx bytes are compared with an independent walk of the .shp bytes, "
+      "then the real ShapeReader::with_shx must report n, return the i-th shape at i<n and None beyond, iterate identically with and without index, with exact size hints.",
+      "Outside: n > 3; path-created pairs.")
+claim("C05", "Per-shape boxes of all multi-vertex constructors and the header box after 1-3 writes are characterised independently (every vertex inside, both bounds attained) "
+      "for all non-NaN doubles incl. +-inf, +-0, f64::MAX/MIN; the record's stored box is decoded by the independent codec.",
+      "Header M range: claimed only when every measure is real data and not for multipatch (as the property states).")
+claim("C06", "Type identity for the 14 kinds; requested S x actual T matrix of typed reads against generic reads on independently encoded records with symbolic payload "
+      "(error must name S as requested and T as actual); S::try_from over all 14 variants; bulk conversion over all 8 assignments of 3 positions.",
+      "Quick tier: diagonal + rows Point, MultipointM; thorough: all 13 rows.")
+claim("C07", "Every byte the reader looks at is symbolic: header, index, record decoders (all three point types, the multipoint family with arbitrary counts and declared size, "
+      "Polyline with arbitrary part offsets), file-level iteration and random access. Kani's default checks (overflow, bounds, debug assertions, unwrap) are the property; loops driven "
+      "by input counts are unwound past the input size with unwinding assertions on. Ten defects found this way are listed as open known findings (call site + check).",
+      "Outside: inputs longer than the buffers (72-172 bytes); part/point loops of PolylineM/Z, Polygon*, Multipatch on arbitrary counts (solver out of memory) - their size arithmetic is the multipoint one. "
+      "A path that continues only past a listed finding's failing check is not explored (Kani assumes a checked assertion).")
+claim("C09", "Every history of length <= 2 (quick) / <= 3, selected 4 (thorough) over {write a, write b, finalize} x {drop, finalize+drop}, one harness per history, payload symbolic: "
+      "final .shp/.shx identical to writes-only+drop; every effective finalize flushes, repositions and commits consistent lengths; total I/O equals writes + effective finalizes (a finalize with nothing new does none).",
+      "Outside: longer histories; types other than Point/PointM/PointZ/PolylineM.")
+claim("C10", "One harness per first type: [write, offers, write, offers, finalize, offers, write, drop] where 'offers' presents all 12 other types: each must be refused with "
+      "MismatchShapeType{requested: file type, actual: offered}, issue no I/O, leave the writer clean, and the final files equal those of the history without offers.",
+      "Quick: 4 first types; thorough: all 13. The complete Writer (dbf row not written) is outside: see C08.")
+claim("C11", "Crash cut = (operation index, byte inside it), symbolic and independent for .shp and .shx, over the workload write a, [finalize], write b, drop: the persisted images are read by the real "
+      "ShapeReader::new / ::with_shx; every returned shape must be the one written at that position; shapes committed by a completed finalize stay readable.",
+      "Outside: workloads beyond 2 Points; index files cut inside their first 100 bytes (C13 truncation).")
+claim("C12", "Failing operation index k symbolic over every write/seek/flush the workload issues, on .shp or .shx (symbolic), one-shot or persistent (symbolic): the call in progress returns Err(IoError), "
+      "a failed finalize can be retried to byte-identical files, drop never panics; short writes under three uniform schedules give identical bytes.",
+      "Outside: arbitrary per-call short-write counts (make file offsets symbolic; no result) - the library only calls write_all, whose contract is std's.")
+claim("C13", "Truncation length symbolic over the whole file for point files and the header; enumerated (every t) for multi-vertex records; failing read symbolic for open, enumerated for record decoders; failing seeks; "
+      "short reads under uniform schedules. Shapes before the first error equal the stored ones, the cut record is IoError.",
+      "Layered because a symbolic failure point that survives across reader calls cannot be folded by CBMC (see DESIGN.md section 8).")
+claim("C17", "C07 decoders re-run with Vec::with_capacity replaced (kani::stub) by a model that asserts each pre-sizing request <= 64 x input + 4096 bytes. The defect the property describes is found and listed as an open known finding.",
+      "Growth by push is amortised <= 2x bytes read (std contract, assumed). vec![x; n] (multipatch.rs:247) is sized by the same count as the with_capacity next to it.")
+claim("C18", "size_in_bytes == bytes emitted == whitepaper size, and record header content length == (size+4)/2, for 71 grid cells over the 13 types (24 in the quick tier), coordinates symbolic.",
+      "Sizes outside the grid are outside the claim.")
 claim("C19", "All 2^32 codes are covered symbolically in one SAT query per obligation: ShapeType::from is a partial bijection onto the 14 ESRI codes, "
       "invalid codes in a header or record give InvalidShapeType(code), predicates and Display names equal a literal ESRI table. Exhaustive for the code domain.")
 
-_pending = "check not built yet in this session (work in progress; see DESIGN.md for the planned harness family)"
-for p in ["C01","C02","C03","C04","C05","C06","C07","C08","C09","C10","C11","C12","C13","C14","C15","C16","C17","C18","C20"]:
+_pending = "check not built yet in this session (planned harness family in DESIGN.md section 4)"
+for p in ["C03","C08","C14","C15","C16","C20"]:
     na(p, _pending)
